@@ -1,15 +1,220 @@
 package main
 
 import (
+	"flag"
 	"fmt"
-	"golang.org/x/tools/go/packages"
+	"os"
+	"path/filepath"
+	"sort"
+	"strings"
+	"sync"
+	"time"
 )
 
+var verifDir = "/verif"
+
 func main() {
-	cfg := &packages.Config{Mode: packages.NeedName | packages.NeedFiles | packages.NeedSyntax | packages.NeedTypes | packages.NeedTypesInfo | packages.NeedImports | packages.NeedDeps, Dir: "/repo", BuildFlags: []string{"-tags=verif"}}
-	pkgs, err := packages.Load(cfg, "./...")
-	fmt.Println(len(pkgs), err)
-	for _, p := range pkgs {
-		fmt.Println(p.PkgPath, len(p.Syntax), p.Errors)
+	if len(os.Args) < 2 {
+		fmt.Fprintln(os.Stderr, "usage: govc check|list|dump ...")
+		os.Exit(2)
 	}
+	if d := os.Getenv("VERIF_REPO"); d != "" {
+		repoDir = d
+	}
+	if d := os.Getenv("VERIF_DIR"); d != "" {
+		verifDir = d
+	}
+	switch os.Args[1] {
+	case "check":
+		os.Exit(cmdCheck(os.Args[2:]))
+	case "list":
+		w, err := loadWorld()
+		if err != nil {
+			fmt.Fprintln(os.Stderr, err)
+			os.Exit(2)
+		}
+		for _, d := range w.AllDecls {
+			fmt.Printf("%-6s %-50s %v\n", d.Kind, w.unitName(d), d.Tags)
+		}
+		for _, p := range w.Problems {
+			fmt.Println("PROBLEM:", p)
+		}
+	case "gen":
+		w, err := loadWorld()
+		if err != nil {
+			fmt.Fprintln(os.Stderr, err)
+			os.Exit(2)
+		}
+		for _, pk := range w.Order {
+			if len(pk.Decls) > 0 {
+				fmt.Printf("// ---- %s\n%s\n", pk.Path, pk.GenSrc)
+			}
+		}
+	default:
+		fmt.Fprintln(os.Stderr, "unknown command")
+		os.Exit(2)
+	}
+}
+
+func cmdCheck(args []string) int {
+	fs := flag.NewFlagSet("check", flag.ExitOnError)
+	prop := fs.String("prop", "", "property id")
+	tier := fs.String("tier", "quick", "quick|thorough")
+	only := fs.String("only", "", "restrict to units whose name contains this")
+	verbose := fs.Bool("v", false, "verbose")
+	keep := fs.Bool("keep", false, "keep smt files")
+	fs.Parse(args)
+	start := time.Now()
+	w, err := loadWorld()
+	if err != nil {
+		fmt.Fprintln(os.Stderr, "load error:", err)
+		return 2
+	}
+	for _, p := range w.Problems {
+		fmt.Println("CONTRACT-PROBLEM:", p)
+	}
+	timeout := 20
+	if *tier == "thorough" {
+		timeout = 120
+	}
+	run := &Run{w: w, prop: *prop, tier: *tier, timeout: timeout, verbose: *verbose, start: start, only: *only, keep: *keep}
+	return run.execute()
+}
+
+type Run struct {
+	w       *World
+	prop    string
+	tier    string
+	timeout int
+	verbose bool
+	keep    bool
+	only    string
+	start   time.Time
+	units   []*UnitResult
+}
+
+func (r *Run) selectDecls() []*Decl {
+	var sel []*Decl
+	seen := map[*Decl]bool{}
+	for _, d := range r.w.AllDecls {
+		if d.Kind == "spec" || d.Kind == "type" {
+			continue
+		}
+		if r.prop != "" && !hasTag(d.Tags, r.prop) {
+			continue
+		}
+		if r.only != "" && !strings.Contains(r.w.unitName(d), r.only) {
+			continue
+		}
+		if !seen[d] {
+			seen[d] = true
+			sel = append(sel, d)
+		}
+	}
+	return sel
+}
+
+func (r *Run) execute() int {
+	w := r.w
+	sel := r.selectDecls()
+	if len(sel) == 0 {
+		fmt.Printf("no contracts tagged %s\n", r.prop)
+		return 2
+	}
+	done := map[*Decl]bool{}
+	queue := append([]*Decl{}, sel...)
+	for len(queue) > 0 {
+		d := queue[0]
+		queue = queue[1:]
+		if done[d] {
+			continue
+		}
+		done[d] = true
+		if d.Trusted {
+			r.units = append(r.units, &UnitResult{Name: w.unitName(d), Kind: d.Kind, Decl: d, Undecided: "trusted"})
+			continue
+		}
+		u := w.verifyDecl(d)
+		r.units = append(r.units, u)
+		if r.only == "" {
+			for _, c := range u.Callees {
+				if cd, ok := w.Contracts[c]; ok && !done[cd] {
+					queue = append(queue, cd)
+				}
+			}
+			for _, l := range u.Lemmas {
+				for _, ld := range w.Lemmas {
+					if ld.Name == l && !done[ld] {
+						queue = append(queue, ld)
+					}
+				}
+			}
+		}
+	}
+	// discharge
+	dir, _ := os.MkdirTemp("", "govc-smt-")
+	if r.keep {
+		dir = filepath.Join(verifDir, ".cache", "smt")
+		os.MkdirAll(dir, 0755)
+	} else {
+		defer os.RemoveAll(dir)
+	}
+	dis := &Discharger{w: w, dir: dir, timeout: r.timeout, sem: make(chan struct{}, 5)}
+	var wg sync.WaitGroup
+	for _, u := range r.units {
+		for _, o := range u.Obls {
+			if sp := splitOf[u.Decl]; sp != nil {
+				o.Split = sp
+			}
+			o := o
+			wg.Add(1)
+			go func() {
+				defer wg.Done()
+				dis.discharge(o)
+			}()
+		}
+	}
+	wg.Wait()
+	return r.report()
+}
+
+func (r *Run) report() int {
+	nOb, nDis := 0, 0
+	bad := 0
+	sort.Slice(r.units, func(i, j int) bool { return r.units[i].Name < r.units[j].Name })
+	for _, u := range r.units {
+		if u.Undecided != "" {
+			fmt.Printf("UNDECIDED unit=%s reason=%s\n", u.Name, u.Undecided)
+			continue
+		}
+		ok := 0
+		for _, o := range u.Obls {
+			nOb++
+			if o.Status == "discharged" {
+				nDis++
+				ok++
+				if r.verbose {
+					fmt.Printf("  ok   %-60s %-10s %.2fs\n", o.Name, o.Solver, o.Seconds)
+				}
+			} else {
+				bad++
+				fmt.Printf("  FAIL %-60s status=%s solver=%s %.2fs\n       clause: %s\n       at %s\n", o.Name, o.Status, o.Solver, o.Seconds, o.Clause, o.Pos)
+				if o.Status == "failed" {
+					var ks []string
+					for _, iv := range o.Inputs {
+						if v, ok := o.Model[iv.T.Name]; ok {
+							ks = append(ks, iv.Path+"="+v)
+						}
+					}
+					fmt.Printf("       model: %s\n", strings.Join(ks, " "))
+				}
+			}
+		}
+		fmt.Printf("unit %-55s %d/%d obligations discharged (returns=%d)\n", u.Name, ok, len(u.Obls), u.Returns)
+	}
+	fmt.Printf("TOTAL %d/%d obligations discharged in %.1fs\n", nDis, nOb, time.Since(r.start).Seconds())
+	if bad > 0 {
+		return 1
+	}
+	return 0
 }
